@@ -212,7 +212,18 @@ class Gen:
         ndocs = r.choice([1, 1, 1, 2, 2, 3])
         out = []
         for _ in range(r.choice([0, 0, 0, 1, 2])):
-            out.append(self.comment() if r.random() < 0.8 else "")
+            q = r.random()
+            if q < 0.65:
+                out.append(self.comment())
+            elif q < 0.8:
+                out.append(r.choice(["\t", " \t", "\t ", " ", "  \t"])[:3] + self.comment())     # blank-indented header comment
+            elif q < 0.88:
+                out.append(r.choice([" ", "\t", " \t"]) if out or True else "")                     # white-space-only line (kept only in front of a comment)
+                out.append(self.comment())
+            elif q < 0.93:
+                out.append(self.comment() + "\r")                                                   # CRLF
+            else:
+                out.append("")
         if r.random() < 0.3:
             out.append("---" if r.random() < 0.8 else "--- " + self.comment())
             for _ in range(r.choice([0, 0, 1])):
@@ -232,6 +243,9 @@ class Gen:
 
 
 ADVERSARIAL_STREAMS = [
+    # header comments indented with TAB / mixed blanks, white-space-only lines, CRLF
+    "\t# x\na: 1\n", " \t # x\na: 1\n", "\t\n# c\na: 1\n", "# c\r\na: 1\r\n", "\t# x\n\n \t# y\n---\na: 1\n", "# c\r\n\r\n# d\r\na: 1\n", " \r\n#c\na: 1\n",
+    "\t\t# two tabs\nk: v\n", "  \t# x\n---\n\t# y\n- 1\n", " \n\t\n  # c\na: 1\n", "\f# ff\na: 1\n", "\r# cr\na: 1\n",
     # first documents whose root block is indented by 4 or more columns, with and without leading content
     "    a: 1\n    b: 2\n", "# c\n    a: 1\n    b: 2\n", "     - x\n     - y\n", "---\n    a: 1\n", "\n      k:\n        - 1\n", "# c1\n\n        deep: [1, 2]\n",
     "    a: 1\n---\n    b: 2\n", "    'q'\n", "      # c\n      a: 1\n",
@@ -376,19 +390,6 @@ def finding_of_event(a, b, in_flow=False):
 
 def analyse(src, out, comments):
     """-> (status, detail, set of finding keys that explain every difference or None)"""
-    try:
-        gin = graph(compose_all(src))
-        ein = events(src)
-    except Exception as e:  # noqa
-        return "skip", "PyYAML rejects the input: %s" % str(e)[:80], None
-    try:
-        text = out.decode("utf-8")
-        gout = graph(compose_all(text))
-        eout = events(text)
-    except Exception as e:  # noqa
-        return "fail:unreadable", "PyYAML cannot read yq's output: %s" % str(e)[:120], None
-    if len(gin) != len(gout):
-        return "fail:doccount", "document count %d -> %d" % (len(gin), len(gout)), None
     # the leading block (blank lines, comments, separators in front of the first document) must come back unchanged
     li, ri, si = py_process(src.encode("utf-8"))
     lo, ro, so = py_process(out)
@@ -403,6 +404,19 @@ def analyse(src, out, comments):
         if marked == lo and marked != li:
             return "fail:leading", "a comment containing the marker text became a separator", {"leading-comment-marker-injection"}
         return "fail:leading", "leading content changed: %r -> %r" % (li[:80], lo[:80]), None
+    try:
+        gin = graph(compose_all(src))
+        ein = events(src)
+    except Exception as e:  # noqa
+        return "skip", "PyYAML rejects the input: %s" % str(e)[:80], None
+    try:
+        text = out.decode("utf-8")
+        gout = graph(compose_all(text))
+        eout = events(text)
+    except Exception as e:  # noqa
+        return "fail:unreadable", "PyYAML cannot read yq's output: %s" % str(e)[:120], None
+    if len(gin) != len(gout):
+        return "fail:doccount", "document count %d -> %d" % (len(gin), len(gout)), None
     keys = set()
     unexplained = None
     status = "ok"
@@ -496,7 +510,7 @@ def judge(src, rc, out, err, rc2, out2, comments):
     if rc != 0:
         return "skip", "yq rejects the input", None
     st, why, keys = analyse(src, out, comments)
-    if st == "ok":
+    if st in ("ok", "skip"):      # (skip: the independent reader rejects the input; bytes of the leading block and the second pass are still checked)
         if rc2 != 0:
             return "fail:second", "second pass fails: %s" % (err2s(err))[:100], None
         if out2 != out:
